@@ -23,10 +23,10 @@ def var_case(draw):
     sysd, _prop = draw(proportional_variant(sysd))
     sv = Sys(sysd)
     rows = draw(target_rows(sysd, ["interior", "interior", "outside", "scaled_out"], nrows=(1, 3), margin=(0.05, 0.45)))
-    ek = draw(st.sampled_from(["none", "none_fn", "hetero", "explicit", "explicit", "unc2d", "unc3d"]))
+    ek = draw(st.sampled_from(["none", "none_fn", "hetero", "explicit", "explicit", "explicit_est", "unc2d", "unc3d"]))
     eps_abs = None
     samples = None
-    if ek in ("explicit", "unc2d"):
+    if ek in ("explicit", "explicit_est", "unc2d"):
         eps_abs = draw(gens.array((sv.m, sv.n), 0.01, 4.0, styles=("raw",)))
     elif ek == "unc3d":
         S = draw(st.integers(2, 4))
@@ -36,7 +36,9 @@ def var_case(draw):
     return dict(system=sysd, rows=rows, eps_kind=ek, eps=eps_abs, samples=samples, use_l1=use_l1, l1_t=draw(st.floats(0.0, 1.0)), W=W,
                 l2_eps=draw(gens.log_uniform(1e-4, 1e-2)), l1_eps=draw(gens.log_uniform(1e-3, 1e-1)),
                 accuracy=draw(st.sampled_from(["high", "high", "default"])), repeat=draw(st.sampled_from([False, False, True])), proportional=_prop,
-                batch_size=draw(st.sampled_from([None, None, None, 2, 3, "full"])))
+                batch_size=draw(st.sampled_from([None, None, None, 2, 3, "full"])),
+                # the attainable error may be supplied by the caller (norm=): one value per sample, or one number for all
+                norm_mode=draw(st.sampled_from([None, None, None, "array", "scalar"])))
 
 
 def two_point_estimator(sv, w):
@@ -119,6 +121,14 @@ def body_var(case):
     opt = dict(HIGH) if high else {}
     if case.get("batch_size") is not None:
         opt["batch_size"] = case["batch_size"]          # a performance setting: several targets stacked into one problem
+    nm = case.get("norm_mode")
+    eos = np.array([eo for _, eo in refs], dtype=float)
+    if nm == "array":
+        opt["norm"] = eos.copy()
+    elif nm == "scalar" and float(np.max(eos)) <= 1e-9 * sv.extent:
+        opt["norm"] = 0.0                               # every target is in the gamut: nothing is lost by not fitting first
+    else:
+        nm = None
     L1 = None
     if case["use_l1"]:
         L1 = []
@@ -149,13 +159,18 @@ def body_var(case):
         pad[:, :, 2:-1:2] = S[::-1]
         est_unc = pad
         eps_abs = np.var(0.5 * S + 0.5 * S[::-1], axis=0)
-    elif ek == "explicit":
+    elif ek in ("explicit", "explicit_est"):
         eps_abs = np.asarray(case["eps"], dtype=float)
+        if ek == "explicit_est":
+            # the matrix is registered with the system on an estimator that ALSO carries a filter uncertainty: the explicit one counts
+            sig = np.zeros((sv.m, sv.n + 2))
+            sig[:, 1:-1] = np.sqrt(eps_abs[::-1, ::-1]) * 1.7
+            est_unc = sig
     else:
         eps_abs = None
     Ep = sv.Ap ** 2 if eps_abs is None else propagated(eps_abs, sv.K_raw)
     with calling(f"minimize_variance(Epsilon={ek})"):
-        if ek in ("unc2d", "unc3d", "none"):
+        if ek in ("unc2d", "unc3d", "none", "explicit_est"):
             import dreye
             if ek == "unc3d":
                 est, src = two_point_estimator(sv, w_arg)
@@ -165,7 +180,7 @@ def body_var(case):
                 src[np.arange(sv.n), np.arange(sv.n) + 1] = 1.0
             if est_unc is not None:
                 est.register_uncertainty(est_unc)
-            est.register_system(src, lb=sv.lb_arg(), ub=sv.ub_arg())
+            est.register_system(src, lb=sv.lb_arg(), ub=sv.ub_arg(), **(dict(Epsilon=eps_abs.copy()) if ek == "explicit_est" else {}))
             with unchanged("var", estimator=est):
                 X, Bp, Bv = est.minimize_variance(B, l2_eps=l2_eps, L1=L1, l1_eps=l1_eps, **opt)
             if case.get("repeat"):
@@ -187,6 +202,8 @@ def body_var(case):
         labs.append("proportional-sources")
     if case.get("batch_size") is not None:
         labs.append(f"batch:{case['batch_size']}")
+    if nm:
+        labs.append(f"norm:{nm}")
     if case.get("repeat"):
         # the same request on the same estimator / with the same arrays: the variance model in force must not drift between calls
         for name, a, b_ in zip(("intensities", "predicted capture", "capture variance"), (X, Bp, Bv), again):
@@ -236,7 +253,7 @@ def body_var(case):
                 labs.append("nt:variance-reduced")
         else:
             labs.append("nt:L1-request")
-    if ek in ("unc2d", "unc3d", "explicit") and sv.K_raw is not None:
+    if ek in ("unc2d", "unc3d", "explicit", "explicit_est") and sv.K_raw is not None:
         labs.append("nt:propagated-through-K")
     return labs
 
